@@ -1,11 +1,354 @@
-"""Anti-vacuity self tests: corrupt recorded traces field by field and require TLC to reject them."""
+"""Anti-vacuity self tests (`bin/check Cxx --selftest`): take a freshly recorded, accepted trace, corrupt
+one recorded field at a time and require TLC to reject exactly that event with the expected formula.
+Demonstrates that the specification is bound to what is recorded (a trace spec that accepted these
+would be vacuous)."""
+import copy
+import json
+import os
+
+import common
+
+
+def _first(trace, pred):
+    for i, e in enumerate(trace):
+        if pred(e):
+            return i
+    return None
+
+
+def run_corruptions(module, trace, cases):
+    """cases: list of (name, mutate(trace) -> line index or None, [expected formulas])."""
+    d = os.path.join(common.WORK, "selftest_%d" % os.getpid())
+    os.makedirs(d, exist_ok=True)
+    ok = True
+    ran = 0
+    for name, mutate, expected in cases:
+        t = copy.deepcopy(trace)
+        idx = mutate(t)
+        if idx is None:
+            print("SELFTEST skip %-28s (no suitable event in the sample trace)" % name)
+            continue
+        ran += 1
+        p = os.path.join(d, "t.ndjson")
+        common.write_ndjson(p, t)
+        res = common.run_tlc(module, invariants=expected, trace=p, workers=2, timeout=600)
+        os.remove(p)
+        hit = [v for v in res.violations if v["l"] == idx + 1 and v["name"] in expected]
+        if res.errors and not hit:
+            print("SELFTEST ERROR %-27s TLC error: %s" % (name, res.errors[0][:200]))
+            ok = False
+        elif hit:
+            print("SELFTEST ok   %-28s rejected by %s at event %d" % (name, hit[0]["name"], idx + 1))
+        else:
+            print("SELFTEST FAIL %-28s corrupted event %d was accepted (violations: %s)" % (
+                name, idx + 1, [(v["name"], v["l"]) for v in res.violations][:4]))
+            ok = False
+    try:
+        os.rmdir(d)
+    except OSError:
+        pass
+    if ran == 0:
+        print("SELFTEST: no corruption applicable")
+        return 2
+    return 0 if ok else 1
+
+
+# --------------------------------------------------------------------------- pipeline
+def _out(t):
+    return _first(t, lambda e: e["ev"] == "output" and e["O"]["fleet"] and any(f["vehicles"] for f in e["O"]["fleet"]))
 
 
 def pipe(prop, tier, seed):
-    print("selftest for %s not implemented yet" % prop)
-    return 2
+    import pipeline
+    info = pipeline.corpus(tier, seed, "release")
+    trace = common.read_ndjson(info["chunks"][0])
+
+    def veh(e):
+        for f in e["O"]["fleet"]:
+            if f["vehicles"]:
+                return f["vehicles"][0]
+
+    def m_unknown_depot(t):
+        i = _out(t)
+        veh(t[i])["sd"] = "NO_SUCH_DEPOT"
+        return i
+
+    def m_time_shift(t):
+        # a vehicle with two segments: pretend it also serves a segment of another vehicle at the same time
+        for i, e in enumerate(t):
+            if e["ev"] != "output":
+                continue
+            vs = [v for f in e["O"]["fleet"] for v in f["vehicles"]]
+            for a in vs:
+                for b in vs:
+                    if a is not b and a["segs"] and b["segs"]:
+                        sa, sb = a["segs"][0], b["segs"][0]
+                        if sa["dep"] < sb["arr"] and sb["dep"] < sa["arr"] and sa["id"] != sb["id"]:
+                            a["segs"].append(dict(sb))
+                            return i
+        return None
+
+    def m_form_extra(t):
+        i = _out(t)
+        s = t[i]["O"]["segs"][0]
+        s["form"] = s["form"] + ["veh_97", "veh_98", "veh_99"] * 40
+        return i
+
+    def m_form_drop(t):
+        i = _first(t, lambda e: e["ev"] == "output" and any(s["form"] for s in e["O"]["segs"]))
+        s = [s for s in t[i]["O"]["segs"] if s["form"]][0]
+        s["form"] = s["form"][1:]
+        return i
+
+    def m_cost(t):
+        i = _out(t)
+        t[i]["O"]["obj"]["costs"] += 1
+        return i
+
+    def m_viol(t):
+        i = _out(t)
+        t[i]["O"]["obj"]["viol"] += 1
+        return i
+
+    def m_unserved(t):
+        i = _out(t)
+        t[i]["O"]["obj"]["unserved"] += 1
+        return i
+
+    def m_enddepot(t):
+        for i, e in enumerate(t):
+            if e["ev"] != "output":
+                continue
+            depots = {d["id"] for d in t[e["li"] - 1]["I"]["depots"]}
+            for f in e["O"]["fleet"]:
+                for v in f["vehicles"]:
+                    other = [d for d in depots if d != v["ed"]]
+                    if other:
+                        v["ed"] = sorted(other)[0]
+                        return i
+        return None
+
+    def m_cycle_drop(t):
+        i = _first(t, lambda e: e["ev"] == "output" and any(c for f in e["O"]["fleet"] for c in f["cycles"]))
+        for f in t[i]["O"]["fleet"]:
+            for c in f["cycles"]:
+                if c:
+                    c.pop()
+                    return i
+
+    def m_status(t):
+        i = _first(t, lambda e: e["ev"] == "end")
+        t[i]["status"] = "panic"
+        return i
+
+    def m_stage_cost(t):
+        i = _first(t, lambda e: e["ev"] == "stage" and e["S"]["veh"])
+        t[i]["S"]["costs"] += 1
+        return i
+
+    def m_final_cycles(t):
+        for i, e in enumerate(t):
+            if e["ev"] == "summary" and e["final"]:
+                F = t[e["final"] - 1]["S"]
+                for tr in F["tr"]:
+                    for c in tr["cyc"]:
+                        if len(c["v"]) >= 2:
+                            c["v"] = c["v"][1:] + c["v"][:1]
+                            return i
+        return None
+
+    def m_ls_worse(t):
+        i = _first(t, lambda e: e["ev"] == "stage" and e["label"] == "ls_step")
+        if i is None:
+            return None
+        t[i]["S"] = copy.deepcopy(t[t[i]["pi"] - 1]["S"])   # "step" that does not improve
+        return i
+
+    cases = {
+        "C01": [("unknown start depot", m_unknown_depot, ["P_C01"]), ("overlapping extra segment", m_time_shift, ["P_C01"])],
+        "C02": [("120 extra vehicles in formation", m_form_extra, ["P_C02_formation", "P_C03_views"])],
+        "C03": [("vehicle dropped from formation", m_form_drop, ["P_C03_views"])],
+        "C04": [("costs + 1", m_cost, ["P_C04_costs"]), ("violation + 1", m_viol, ["P_C04_violation"])],
+        "C05": [("end depot moved", m_enddepot, ["P_C05_aligned", "P_C05_balance"]),
+                ("vehicle dropped from cycle", m_cycle_drop, ["P_C05_partition"])],
+        "C06": [("status panic", m_status, ["P_C06"])],
+        "C07": [("unserved + 1", m_unserved, ["P_C07_coverage"])],
+        "C08": [("non-improving step", m_ls_worse, ["P_C08_descent"])],
+        "C14": [("stage cost + 1", m_stage_cost, ["P_stage_caches_sched"])],
+        "C16": [("final cycle rotated", m_final_cycles, ["P_C16_cycles", "P_C16_final", "P_C16_output"])],
+    }
+    return run_corruptions("TracePipe", trace, cases.get(prop, cases["C04"]))
 
 
+# --------------------------------------------------------------------------- network
 def net(prop, tier, seed):
-    print("selftest for %s not implemented yet" % prop)
-    return 2
+    import gen
+    import props
+    insts = [gen.gen_instance(seed, i) for i in range(12)]
+    trace = props.net_trace(insts, common.cache_dir("selftest_net"))
+
+    def ok_net(e):
+        return e["ev"] == "net" and e["ok"]
+
+    def m_reach(t):
+        i = _first(t, lambda e: ok_net(e) and e["obs"]["reach"])
+        t[i]["obs"]["reach"].pop()
+        return i
+
+    def m_time(t):
+        i = _first(t, lambda e: ok_net(e) and any(n["k"] == "svc" for n in e["obs"]["nodes"]))
+        n = [n for n in t[i]["obs"]["nodes"] if n["k"] == "svc"][0]
+        n["t2"] += 60
+        return i
+
+    def m_pred(t):
+        i = _first(t, lambda e: ok_net(e) and any(p["l"] for p in e["obs"]["pred"]))
+        p = [p for p in t[i]["obs"]["pred"] if p["l"]][0]
+        p["l"] = p["l"][1:]
+        return i
+
+    def m_cap(t):
+        i = _first(t, lambda e: ok_net(e))
+        for d in t[i]["obs"]["depots"]:
+            if d["id"] == "OVERFLOW_DEPOT":
+                d["cap"] = 0
+        return i
+
+    return run_corruptions("TraceNet", trace, [
+        ("reach pair removed", m_reach, ["P_C17_reach"]),
+        ("arrival + 60 s", m_time, ["P_C17_nodes"]),
+        ("predecessor dropped", m_pred, ["P_C17_pred"]),
+        ("overflow capacity 0", m_cap, ["P_C17_overflow"]),
+    ])
+
+
+# --------------------------------------------------------------------------- walks
+def walk(prop, tier, seed):
+    import walks
+    info = walks.corpus(tier, seed)
+    trace = common.read_ndjson(info["chunks"][0])
+
+    def has_s(e):
+        return e["ev"] == "op" and e["ok"] and e["S"]["veh"]
+
+    def m_cost(t):
+        i = _first(t, has_s)
+        t[i]["S"]["veh"][0]["c"] += 1
+        return i
+
+    def m_form(t):
+        i = _first(t, lambda e: has_s(e) and any(f["v"] for f in e["S"]["form"]))
+        f = [f for f in t[i]["S"]["form"] if f["v"]][0]
+        f["v"] = f["v"][1:]
+        return i
+
+    def m_tour(t):
+        i = _first(t, lambda e: has_s(e) and e["op"] == "spawn_vehicle_for_path")
+        v = t[i]["S"]["veh"][-1]
+        others = [d for d in {x["n"][-1] for e in t if e.get("S") for x in e["S"]["veh"]} if d != v["n"][-1]]
+        if not others:
+            return None
+        # another vehicle's tour silently changed by the call
+        j = _first(t, lambda e: has_s(e) and len(e["S"]["veh"]) >= 2 and e["op"] in ("spawn_vehicle_for_path",))
+        if j is None:
+            return None
+        t[j]["S"]["veh"][0]["n"] = t[j]["S"]["veh"][0]["n"][:-1] + [sorted(others)[0]]
+        return j
+
+    def m_digest(t):
+        i = _first(t, lambda e: e["ev"] == "op")
+        t[i]["ha"] = "0000000000000000"
+        return i
+
+    cases = {
+        "C09": [("tour cost + 1", m_cost, ["P_C09_tour"])],
+        "C10": [("vehicle dropped from formation", m_form, ["P_C10_formations"])],
+        "C13": [("other vehicle's end depot changed", m_tour, ["P_C13_effect"]),
+                ("input digest changed", m_digest, ["P_C13_input"])],
+    }
+    return run_corruptions("TraceSched", trace, cases[prop])
+
+
+def tour(prop, tier, seed):
+    import tours as tm
+    from check import Outcome
+    out = Outcome()
+    cases = tm.run_gen("quick", out, bnd={"MaxActs": "2", "MaxMnt": "0", "Starts": "{0,1}", "Durs": "{1}"})[:40]
+    by_name = tm.execute(cases)
+    d = common.cache_dir("selftest_tour")
+    chunks, index = tm.build_traces(cases, by_name, d)
+    trace = common.read_ndjson(chunks[0])
+
+    def m_insert(t):
+        i = _first(t, lambda e: e.get("op") == "insert" and e["ok"] and len(e["res"]) >= 4)
+        t[i]["res"] = t[i]["res"][:1] + t[i]["res"][2:]
+        return i
+
+    def m_remove(t):
+        i = _first(t, lambda e: e.get("op") == "removable" and e["ok"])
+        t[i]["ok"] = False
+        return i
+
+    def m_fig(t):
+        i = _first(t, lambda e: e.get("op") == "insert" and e["ok"])
+        t[i]["fig"]["dd"] += 1
+        return i
+
+    return run_corruptions("TraceTour", trace, [
+        ("node dropped from insert result", m_insert, ["P_C12_insert"]),
+        ("removable reported false", m_remove, ["P_C12_removable"]),
+        ("dead-head distance + 1", m_fig, ["P_C09_tourfig"]),
+    ])
+
+
+def trans(prop, tier, seed):
+    import transitions as tr
+    from check import Outcome
+    out = Outcome()
+    I, veh, probe, cases = tr.run_model(out, 3, 3)
+    by_case = tr.execute(I, veh, probe, cases)
+    d = common.cache_dir("selftest_trans")
+    chunks, index = tr.build_traces(I, veh, cases, by_case, d)
+    trace = common.read_ndjson(chunks[0])
+
+    def m_counter(t):
+        i = _first(t, lambda e: e["ev"] == "tr" and e["ok"] and e["obs"]["c"])
+        t[i]["obs"]["c"][0] += 1
+        return i
+
+    def m_succ(t):
+        i = _first(t, lambda e: e["ev"] == "tr" and e["ok"] and len(e["obs"]["succ"]) >= 2 and
+                   any(len(c) >= 2 for c in e["obs"]["cyc"]))
+        for s in t[i]["obs"]["succ"]:
+            s["s"] = s["v"]
+        return i
+
+    def m_probe(t):
+        i = _first(t, lambda e: e["ev"] == "tr" and e["ok"] and len(e["obs"]["probe"]) >= 2)
+        t[i]["obs"]["probe"] = t[i]["obs"]["probe"][1:]
+        return i
+
+    return run_corruptions("TraceTrans", trace, [
+        ("cycle counter + 1", m_counter, ["P_C15_inv", "P_C15_model"]),
+        ("successor = self", m_succ, ["P_C15_lookup"]),
+        ("empty-cycle probe shortened", m_probe, ["P_C15_model", "P_C15_empty", "P_C15_inv"]),
+    ])
+
+
+def server(prop, tier, seed):
+    print("SELFTEST for C18: corrupting a recorded exchange")
+    trace = [
+        {"ev": "http", "sched": 0, "r": "h1", "kind": "health", "status": 500, "closed": False, "timeout": False,
+         "body": "Healthy", "li": 0, "json": False},
+        {"ev": "http", "sched": 0, "r": "m1", "kind": "malformed", "status": 200, "closed": False, "timeout": False,
+         "body": "", "li": 0, "json": False},
+        {"ev": "alive", "sched": 0, "alive": False},
+    ]
+    d = common.cache_dir("selftest_srv")
+    p = os.path.join(d, "t.ndjson")
+    common.write_ndjson(p, trace)
+    res = common.run_tlc("TraceServer", invariants=["P_C18_health", "P_C18_malformed", "P_C18_alive"], trace=p, workers=1)
+    got = sorted((v["name"], v["l"]) for v in res.violations)
+    want = [("P_C18_alive", 3), ("P_C18_health", 1), ("P_C18_malformed", 2)]
+    print("SELFTEST", "ok" if got == want else "FAIL", got)
+    return 0 if got == want else 1
